@@ -376,6 +376,19 @@ public class GrolPrims {
         for (Value v : t.elems) { sb.append((char) (l(v) & 0xff)); }
         return new StringValue(sb.toString());
     }
+    // run-length form of a byte string: tuple of <<byte, count>> (compact JSON for very long repetitive lines)
+    public static Value StrRLE(final Value a) {
+        String x = str(a);
+        java.util.ArrayList<Value> runs = new java.util.ArrayList<>();
+        int i = 0;
+        while (i < x.length()) {
+            int j = i;
+            while (j < x.length() && x.charAt(j) == x.charAt(i)) { j++; }
+            runs.add(new TupleValue(new Value[] {IntValue.gen(x.charAt(i) & 0xff), IntValue.gen(j - i)}));
+            i = j;
+        }
+        return new TupleValue(runs.toArray(new Value[0]));
+    }
     // ================================================================ C14 block - end
 
     // ---- GrolLib block (extension functions of the reference semantics) - begin
